@@ -47,6 +47,15 @@ def check_case(a):
             n = m2.shape[-1]
             if back.shape[:-1] != m2.shape[:-1] or not np.array_equal(back[..., :n], m2) or back[..., n:].any():
                 return [('bp_to_mv', f'shape {mva.shape}: round trip lost data or padding lanes are not 0')]
+            # rendering: one line per pattern (last axis), one character per signal (second-to-last axis); a vector is one line
+            if mva.ndim <= 2:
+                txt = str(logic.mv_str(mva))
+                if mva.ndim == 1:
+                    want_lines = [''.join(CHARS[int(v)] for v in mva)]
+                else:
+                    want_lines = [''.join(CHARS[int(mva[i, j])] for i in range(mva.shape[0])) for j in range(mva.shape[1])]
+                if txt.split('\n') != want_lines:
+                    return [('mv_str:axis-convention', f'mv_str of an array of shape {mva.shape} gives {txt!r}, expected the lines {want_lines}')]
         elif kind == 'str':
             strs = a['strings']
             mva = logic.mvarray(*strs)
